@@ -249,6 +249,7 @@ type crashSpec struct {
 type crashResult struct {
 	Keep map[string]int // complete unsynced records that survive, per WAL
 	Info string
+	Torn bool // some image ends inside a record
 }
 
 func frameBytes(n int) int64 { return int64(8 + n) }
@@ -336,6 +337,15 @@ func (r *runner) crash(cut int, sp crashSpec) crashResult {
 			if acc <= k {
 				keep++
 			}
+		}
+		if acc2 := func() int64 {
+			a := int64(0)
+			for i := synced; i < synced+keep; i++ {
+				a += frameBytes(tr.frames[i])
+			}
+			return a
+		}(); acc2 != k {
+			res.Torn = true
 		}
 		res.Keep[name] = keep
 		res.Info += fmt.Sprintf("%s: synced=%d unsynced=%dB kept=%dB(%d rec) ", name, s, u, k, keep)
